@@ -163,6 +163,10 @@ def gen_cases(tier, seed):
         o = {kk: v for kk, v in o.items() if not kk.endswith("_head")}
         sel = rnd.sample(isos, rnd.choice([2, 3, 4]))
         hist.append({"kind": "history", "history_kind": "multi_country_batch", "batch": sel, "opts": copy.deepcopy(o), "runs": [], "save_all": k % 2 == 0, "id": "batch#%d" % k})
+    # the simulations of one scenario file are a history too: what a simulation is started with is what the same simulation
+    # is started with when it is the only one in the file
+    for k in range(6 if tier == "quick" else 60):
+        hist.append({"kind": "history", "history_kind": "simulations_of_one_yaml_file", "yaml": True, "gen_seed": seed * 811 + k, "runs": [], "id": "yaml#%d" % k})
     return hist
 
 
@@ -255,9 +259,73 @@ def run_batch(case):
                                    "settings_fields_changed_between_runs": []}}
 
 
+def run_yaml(case):
+    import contextlib
+    import io
+
+    from src.scenarios import run_scenarios_from_yaml as ry
+    from src.scenarios.run_model_no_trade import ScenarioRunnerNoTrade
+
+    rnd = random.Random(case["gen_seed"])
+    isos = workload.all_isos()
+    settings = {"NMONTHS": rnd.choice([120, 72, 48]), "countries": rnd.choice([rnd.choice(isos), rnd.sample(isos, 3)])}
+    if rnd.random() < 0.25:
+        del settings["countries"]
+    sims = {}
+    for j in range(rnd.choice([2, 3, 4])):
+        o = workload.random_options(rnd)
+        o.pop("NMONTHS", None)
+        o["title"] = "simulation %d" % j
+        if j < 3 and rnd.random() < 0.5:
+            o["NMONTHS"] = rnd.choice([n for n in (120, 72, 48, 24) if n != settings["NMONTHS"]])  # an entry with a horizon of its own
+        sims["sim_%d" % j] = o
+    orig = ScenarioRunnerNoTrade.run_model_no_trade
+
+    def drive(cfg, web):
+        calls = []
+
+        def rec(self, *a, **k):
+            calls.append({"title": k.get("title"), "opts": copy.deepcopy(k.get("scenario_option")), "countries": copy.deepcopy(k.get("countries_list")), "postfix": k.get("figure_save_postfix"),
+                          "flags": [k.get("return_results"), k.get("save_all_results"), k.get("create_pptx_with_all_countries")]})
+            return None
+
+        ScenarioRunnerNoTrade.run_model_no_trade = rec
+        try:
+            with contextlib.redirect_stdout(io.StringIO()):
+                ry.run_scenarios_from_yaml(copy.deepcopy(cfg), False, False, web)
+        finally:
+            ScenarioRunnerNoTrade.run_model_no_trade = orig
+        return calls
+
+    web = bool(case["gen_seed"] % 2)
+    viol = []
+    try:
+        whole = drive({"settings": settings, "simulations": sims}, web)
+        alone = [drive({"settings": settings, "simulations": {name: sim}}, web) for name, sim in sims.items()]
+    except BaseException as e:  # noqa: BLE001
+        if isinstance(e, KeyboardInterrupt):
+            raise
+        return {"viol": [{"mech": "history_changes_result", "msg": "yaml file with %d simulations: the entry point raised %r" % (len(sims), e), "data": {"history_kind": case["history_kind"], "differs_in": ["raised"]}}],
+                "obs": {"history_kind": case["history_kind"], "runs": 0, "distinct_runs": 0, "completed_runs": 0, "sequence": [], "settings_fields_changed_between_runs": []}}
+    if len(whole) != len(sims):
+        viol.append({"mech": "history_changes_result", "msg": "yaml file with %d simulations made %d model calls" % (len(sims), len(whole)), "data": {"history_kind": case["history_kind"], "differs_in": ["number_of_calls"]}})
+    for k, (name, w) in enumerate(zip(sims, whole)):
+        a = alone[k][0] if alone[k] else None
+        if a != w:
+            diffp = sorted(kk for kk in w if a is None or a.get(kk) != w.get(kk))
+            od = sorted(kk for kk in set(w["opts"] or {}) | set((a or {}).get("opts") or {}) if (w["opts"] or {}).get(kk) != ((a or {}).get("opts") or {}).get(kk))
+            viol.append({"mech": "history_changes_result", "msg": "yaml file: simulation %d of %d (%s) is started with different %s (options %s: %s) than when it is the only simulation in the file; own-horizon entries: %s" % (
+                k + 1, len(sims), name, diffp, od, {kk: ((w["opts"] or {}).get(kk), ((a or {}).get("opts") or {}).get(kk)) for kk in od[:3]}, [n for n, s_ in sims.items() if "NMONTHS" in s_]),
+                "data": {"history_kind": case["history_kind"], "position": k, "differs_in": diffp, "option_keys": od[:6]}})
+    return {"viol": viol[:3], "obs": {"history_kind": case["history_kind"], "runs": len(whole), "distinct_runs": len(sims), "completed_runs": len(whole), "sequence": list(sims),
+                                      "settings_fields_changed_between_runs": []}}
+
+
 def run_case(case, tier):
     if case.get("batch"):
         return run_batch(case)
+    if case.get("yaml"):
+        return run_yaml(case)
     viol = []
     refs = {}
     seq = []
